@@ -263,7 +263,7 @@ def native_text(g, known, values=None, sweep=0, seed=0):
     L.append('#include <stdio.h>\n#include <string.h>\n#include <stdlib.h>')
     L.append('static unsigned long long vf_rs = %dULL * 2654435761ULL + 88172645463325252ULL;' % (seed + 1))
     L.append('static unsigned long long vf_rnd(void){ vf_rs ^= vf_rs << 13; vf_rs ^= vf_rs >> 7; vf_rs ^= vf_rs << 17; return vf_rs; }')
-    L.append('int main(void)\n{')
+    L.append('#undef main\nint main(void)\n{')
     for (ty, nm) in g['ins']:
         L.append('\t%s %s = 0;' % (ty, nm))
     body = []
